@@ -29,6 +29,7 @@ fn main() {
     world::silence_panics();
     match suite.as_str() {
         "pool" => suites::pool::main(seed, first, runs, ops, &out),
+        "math" => suites::math::main(seed, first, runs, ops, &out, kv.get("kind").map(|s| s.as_str()).unwrap_or("all")),
         _ => {
             eprintln!("unknown suite {suite}");
             std::process::exit(2);
